@@ -9,7 +9,9 @@ import (
 	"encoding/hex"
 	"fmt"
 	"os"
+	"strconv"
 	"strings"
+	"unicode/utf8"
 
 	vh "github.com/sivchari/govalid/validation/validationhelper"
 )
@@ -49,6 +51,29 @@ func main() {
 	if len(os.Args) < 2 {
 		fmt.Fprintln(os.Stderr, "usage: helperprobe <function>")
 		os.Exit(2)
+	}
+	if os.Args[1] == "RuneCount" || os.Args[1] == "Runes" {
+		in := bufio.NewScanner(os.Stdin)
+		in.Buffer(make([]byte, 1<<20), 1<<26)
+		out := bufio.NewWriterSize(os.Stdout, 1<<20)
+		defer out.Flush()
+		for in.Scan() {
+			s := unhex(strings.Fields(in.Text())[0])
+			if os.Args[1] == "RuneCount" {
+				out.WriteString(strconv.Itoa(utf8.RuneCountInString(s)))
+			} else {
+				first := true
+				for _, r := range s {
+					if !first {
+						out.WriteByte(',')
+					}
+					first = false
+					out.WriteString(strconv.Itoa(int(r)))
+				}
+			}
+			out.WriteByte('\n')
+		}
+		return
 	}
 	f, ok := table[os.Args[1]]
 	if !ok {
